@@ -823,7 +823,9 @@ def make_big_seeds(ctx, rng, exe):
     baseline, progressive, arithmetic, 12-bit"""
     lines = ["mk 0 8 2 96 40 0 0 %d 1 0", "mk 0 8 1 80 24 0 0 %d 1 0", "mk 0 8 4 64 48 0 0 %d 1 0", "mk 0 8 5 96 16 0 0 %d 1 0",
              "mk 0 8 0 56 24 0 0 %d 1 0", "mk 0 8 3 72 24 0 0 %d 1 0", "mk 1 12 2 96 40 0 0 %d 1 0", "mk 2 8 2 96 40 0 0 %d 1 0",
-             "mk 3 8 2 64 32 0 0 %d 1 0", "mk 2 12 1 80 24 0 0 %d 1 0", "mk 0 8 2 67 37 2 1 %d 1 0"]
+             "mk 3 8 2 64 32 0 0 %d 1 0", "mk 2 12 1 80 24 0 0 %d 1 0", "mk 0 8 2 67 37 2 1 %d 1 0",
+             # widths 1..3 (RGB565 / merged upsampling edge columns, F54 class)
+             "mk 0 8 2 1 5 0 0 %d 1 0", "mk 0 8 2 3 4 0 0 %d 1 0", "mk 0 8 1 2 3 0 0 %d 1 0", "mk 0 8 0 1 1 0 0 %d 1 0", "mk 0 8 2 2 7 0 0 %d 1 0"]
     lines = [l % rng.below(1000) for l in lines]
     res = run_lines(ctx, exe, lines, "seed generation")
     out = [bytes.fromhex(r[4:]) for r in res if r and r.startswith("jpg ")]
@@ -958,7 +960,7 @@ def run(ctx):
             for _ in range(rng.range(1, 3)):
                 bb[rng.range(len(bb) // 2, len(bb) - 1)] ^= 1 << rng.below(8)
             b = bytes(bb)
-        flags = (i % 2) | (rng.below(2) << 1) | ((i // 2 % 4) << 2) | (rng.below(2) << 4) | ((1 if rng.chance(1, 4) else 0) << 5) | (rng.below(2) << 6) | ((1 if rng.chance(1, 4) else 0) << 7) | ((1 if rng.chance(1, 4) else 0) << 8)
+        flags = (i % 2) | (rng.below(2) << 1) | ((i // 2 % 4) << 2) | (rng.below(2) << 4) | ((1 if rng.chance(1, 4) else 0) << 5) | (rng.below(2) << 6) | ((1 if rng.chance(1, 4) else 0) << 7) | ((1 if rng.chance(1, 3) else 0) << 8) | (rng.below(2) << 9) | (rng.below(2) << 10)
         cases.append(("crop %d %d %s" % (flags, rng.below(100000), b.hex()), "crop"))
     bqsrc = big + [s2 for (s2, tag, segs) in parsed if tag in ("p0", "p2", "p3", "p4", "p1")]
     for i in range(ctx.n(300, 6000)):
